@@ -787,3 +787,49 @@ Proof.
   unfold al_map. induction (z_nodes s) as [|[k n] tl IH]; [reflexivity|].
   cbn [map flat_map fst snd]. now rewrite IH, (walk_node_base w r Hr n).
 Qed.
+
+(* ---------------------------------------------------------------- nodes that do not exist in a version *)
+
+(* a node whose name does not exist in version v (created by an uncommitted, an
+   abandoned or a later version, or emptied) contributes nothing to a walk at v *)
+Lemma not_exists_walk v : forall n, n_exists n v = false -> forall path, walk_node path n v = [].
+Proof.
+  induction n as [rs sp ch IH] using znode_ind'. intros H path. rewrite n_exists_eq in H.
+  apply orb_false_elim in H. destruct H as [Hown Hkids]. cbv [exists_counts_children] in Hkids.
+  unfold own_data in Hown. cbv [exists_counts_rrsets exists_counts_cname] in Hown.
+  apply orb_false_elim in Hown. destruct Hown as [He Hsp]. apply negb_false_iff in He.
+  rewrite walk_node_eq.
+  assert (Hw : walk_rrsets path rs v = []).
+  { clear -He. induction rs as [|[k d] tl IHl]; [reflexivity|]. rewrite walk_rrsets_cons.
+    cbn [rs_is_empty forallb snd] in He. destruct (v_get d v); [discriminate|]. cbn [app]. now apply IHl. }
+  rewrite Hw. cbn [app].
+  assert (Hk : flat_map (fun p => walk_node (path ++ [fst p]) (snd p) v) ch = []).
+  { apply flat_map_nil. intros p Hin. rewrite Forall_forall in IH. apply (IH p Hin).
+    destruct (n_exists (snd p) v) eqn:E; [|reflexivity].
+    assert (existsb (fun q => n_exists (snd q) v) ch = true) by (apply existsb_exists; exists p; split; assumption). congruence. }
+  destruct (sp_get sp v) as [[ns ds glue|id|]|]; try discriminate; exact Hk.
+Qed.
+
+Lemma al_get_filter {A} l k (ns : list (N * A)) :
+  al_get k (filter (fun p => negb (fst p =? l)) ns) = if k =? l then None else al_get k ns.
+Proof.
+  induction ns as [|[k0 a] tl IH]; cbn [filter al_get fst]; [now destruct (k =? l)|].
+  destruct (N.eqb_spec k0 l) as [->|Hne]; cbn [negb al_get].
+  - rewrite IH. rewrite (N.eqb_sym l k). destruct (N.eqb_spec k l); reflexivity.
+  - rewrite IH. destruct (N.eqb_spec k0 k) as [->|Hk]; [|reflexivity].
+    destruct (N.eqb_spec k l); [contradiction|reflexivity].
+Qed.
+
+(* ... and to a query it is as if the node were not in the tree at all: the same
+   answers for every name, in particular for names two or more labels below it
+   and for the wildcard fallback beside it *)
+Theorem nonexistent_node_is_absent : forall ns l v t soa,
+  child_at ns l v = None ->
+  forall p, q_children ns p v t soa = q_children (filter (fun q => negb (fst q =? l)) ns) p v t soa.
+Proof.
+  intros ns l v t soa Hl p.
+  assert (Hc : forall k, child_at (filter (fun q => negb (fst q =? l)) ns) k v = child_at ns k v).
+  { intros k. unfold child_at. rewrite al_get_filter. destruct (N.eqb_spec k l) as [->|_]; [|reflexivity].
+    unfold child_at in Hl. symmetry. exact Hl. }
+  destruct p as [|k rest]; [reflexivity|]. cbn [q_children]. now rewrite !Hc.
+Qed.
